@@ -3,10 +3,12 @@ StreamClient._stream_data/_send_packet, AirPlayV1.send_audio_packet, FileSource,
 ControlClient (retransmit), driven with fake transports under virtual time."""
 import array
 import asyncio
+import io
 import json
 import logging
 import os
 import struct
+import threading
 
 import common
 import vloop
@@ -57,6 +59,10 @@ def default_case(**kw):
                                # AirPlayV2 with _cipher = Chacha20Cipher8byteNonce(key, key) as setup_audio_stream does
         "order": "library",    # "library": StreamClient constructed around a default context, receiver properties
                                # applied afterwards by the real code; "preset": format set before construction
+        "source": None,        # None: FileSource over the in-memory samples.  Otherwise a BUFFERED source opened by the
+                               # real BufferedIOBaseSource.open() on a WAV byte stream whose producer stalls:
+                               # {"kind": "file" | "pipe" (not seekable) | "reader" (asyncio.StreamReader),
+                               #  "stalls": [[pcm byte offset, virtual seconds], ...]}
         "compact": False,      # True: too many datagrams for a case literal - compared with the model through the
                                # header summary of coq/C16/Long.v (payloads are checked in Python only)
         "boundary": False,     # True: probe of a limit outside the property's domain (model tie only, no oracle)
@@ -70,6 +76,133 @@ def default_case(**kw):
 
 def retransmit_req(first, count, typ=0xD5, seqno=1):
     return struct.pack(">BBHHH", 0x80, typ, seqno, first, count).hex()
+
+
+# --------------------------------------------------------------------------- buffered sources that stall
+
+class TLoop(vloop.VLoop):
+    """Virtual-time loop that tolerates executor threads (miniaudio decoding, file reads): while a worker thread
+    is busy, virtual time stands still and the loop waits (real time) for it; a thread that is known to wait for
+    the loop itself (a stalled reader, a StreamReader waiting for data) does not hold time back."""
+
+    def __init__(self):
+        super().__init__()
+        self._jobs = 0
+        self._blocked = 0
+        self._idle = 0
+
+    def run_in_executor(self, executor, func, *args):
+        fut = super().run_in_executor(executor, func, *args)
+        self._jobs += 1
+
+        def done(_):
+            self._jobs -= 1
+        fut.add_done_callback(done)
+        return fut
+
+    def _run_once(self):
+        if self._ready:
+            self._idle = 0
+        elif self._jobs - self._blocked > 0 and self._idle < 2500:
+            self._idle += 1
+            self._process_events(self._selector.select(0.002))
+            if not self._ready:
+                return
+        super()._run_once()
+
+
+def tloop_run(coro_factory, *a):
+    loop = TLoop()
+    try:
+        asyncio.set_event_loop(loop)
+        return loop.run_until_complete(coro_factory(*a))
+    finally:
+        try:
+            pending = [t for t in asyncio.all_tasks(loop) if not t.done()]
+            for t in pending:
+                t.cancel()
+            if pending:
+                loop.run_until_complete(asyncio.gather(*pending, return_exceptions=True))
+            loop.run_until_complete(loop.shutdown_default_executor())
+        except Exception:
+            pass
+        asyncio.set_event_loop(None)
+        loop.close()
+
+
+class StallReader(io.BytesIO):
+    """File object (read in a worker thread) that blocks for some virtual time when reading passes an offset."""
+
+    armed = False
+    can_seek = True
+
+    def setup(self, loop, stalls, can_seek):
+        self.loop = loop
+        self.stalls = sorted(stalls)
+        self.can_seek = can_seek
+        self.stalled = []
+
+    def seekable(self):
+        return self.can_seek
+
+    def read(self, size=-1):
+        if self.armed and self.stalls and size and self.tell() + max(size, 0) > self.stalls[0][0] \
+                and threading.current_thread() is not threading.main_thread():
+            off, secs = self.stalls.pop(0)
+            ev = threading.Event()
+            loop = self.loop
+
+            def fire():
+                loop._blocked -= 1
+                ev.set()
+
+            def arm():
+                loop._blocked += 1
+                loop.call_later(secs, fire)
+            self.stalled.append([off, self.tell()])
+            loop.call_soon_threadsafe(arm)
+            ev.wait(60)
+        return super().read(size)
+
+
+class FeedReader(asyncio.StreamReader):
+    """StreamReader whose consumer (a worker thread blocking on run_coroutine_threadsafe) is known to wait."""
+
+    async def read(self, n=-1):
+        loop = asyncio.get_event_loop()
+        loop._blocked += 1
+        try:
+            return await super().read(n)
+        finally:
+            loop._blocked -= 1
+
+
+async def feed(reader, data, stalls, log):
+    """Producer of a StreamReader: bursts of data with pauses (virtual time) at the given offsets."""
+    pos = 0
+    for off, secs in sorted(stalls) + [[len(data), 0]]:
+        off = min(max(off, pos), len(data))
+        step = 4096
+        while pos < off:
+            reader.feed_data(data[pos:min(off, pos + step)])
+            pos = min(off, pos + step)
+            await asyncio.sleep(0)
+        if secs:
+            log.append([off, pos])
+            await asyncio.sleep(secs)
+    reader.feed_eof()
+
+
+def wav_bytes(pcm, ch, ss, sr):
+    import wave
+    out = io.BytesIO()
+    w = wave.open(out, "wb")
+    w.setnchannels(ch)
+    w.setsampwidth(ss)
+    w.setframerate(sr)
+    w.writeframes(pcm)
+    w.close()
+    return out.getvalue()
 
 
 # --------------------------------------------------------------------------- driver
@@ -174,13 +307,30 @@ async def drive(case, prepared=None, shared_ctx=None):
     arr = array.array(code)
     assert arr.itemsize == ss
     arr.frombytes(src_bytes)
-    if prepared is None:
+    feeder = None
+    stall_log = None
+    if case.get("source"):
+        from pyatv.protocols.raop.audio_source import BufferedIOBaseSource
+        spec = case["source"]
+        data = wav_bytes(src_bytes, ch, ss, case["sample_rate"])
+        stalls = [[44 + o, t] for o, t in spec["stalls"]]
+        if spec["kind"] == "reader":
+            rd = FeedReader()
+            stall_log = []
+            feeder = asyncio.ensure_future(feed(rd, data, stalls, stall_log))
+        else:
+            rd = StallReader(data)
+            rd.setup(loop, stalls, spec["kind"] == "file")
+            stall_log = rd.stalled
+        fsrc = await BufferedIOBaseSource.open(rd, case["sample_rate"], ch, ss)
+        rd.armed = True
+    elif prepared is None:
         decoded = miniaudio.DecodedSoundFile("verif", ch, case["sample_rate"], fmt, arr)
         fsrc = FileSource(decoded)
     else:
         fsrc = prepared
         src_bytes = bytes(fsrc.samples)
-    assert isinstance(fsrc, FileSource) and fsrc.sample_size == ss and fsrc.channels == ch
+    assert isinstance(fsrc, AudioSource) and fsrc.sample_size == ss and fsrc.channels == ch
 
     rtsp = FakeRtsp(case["ssrc"])
     props = {"sr": str(case["sample_rate"]), "ch": str(ch), "ss": str(8 * ss)}
@@ -286,6 +436,10 @@ async def drive(case, prepared=None, shared_ctx=None):
             outcome = "Raised:" + type(ex).__name__
     finally:
         sc.monotonic, sc.monotonic_ns, sc.Statistics = saved
+        if case.get("source"):
+            await fsrc.close()
+            if feeder is not None:
+                feeder.cancel()
     do_requests(None)
     bl = client._packet_backlog
     keys = list(bl)
@@ -301,6 +455,7 @@ async def drive(case, prepared=None, shared_ctx=None):
         "fs": fs,
         "limit": sc.PACKET_BACKLOG_SIZE,
         "calls": cipher_calls,
+        "stalled": stall_log,
         "ctx": ctx,
     }
     ob.update(at_start)
@@ -333,13 +488,63 @@ def run_case(case):
     shared = None
     for sub in streams_of(case):
         prepared = open_via_file(sub) if sub.get("via_file") else None
-        ob = vloop.run(drive, sub, prepared, shared)
+        ob = (tloop_run if sub.get("source") else vloop.run)(drive, sub, prepared, shared)
         shared = ob.pop("ctx")
         out.append((sub, ob))
     return out
 
 
 # --------------------------------------------------------------------------- oracle
+
+def describe_damage(payloads, audio, ps, nd):
+    """The data packets do not carry the audio as full packets in order: say how (stable key per kind)."""
+    pos = 0
+    partial = []
+    silent = []
+    other = None
+    for i, p in enumerate(payloads):
+        if pos >= len(audio):
+            break
+        want = audio[pos:pos + ps]
+        if p == want + bytes(ps - len(want)):
+            pos += len(want)
+            continue
+        if p == bytes(len(p)):
+            silent.append(i)          # a packet of silence although audio remains
+            continue
+        ln = 0
+        while ln < len(p) and ln < len(want) and p[ln] == want[ln]:
+            ln += 1
+        while ln > 0 and p[ln:] != bytes(len(p) - ln):
+            ln -= 1
+        # audio bytes that are zero make the cut ambiguous: take the cut after which the next packet continues
+        nxt = payloads[i + 1][:64] if i + 1 < len(payloads) else None
+        cand = ln
+        while nxt is not None and cand > 0 and audio[pos + cand:pos + cand + len(nxt)] != nxt and p[cand - 1] == 0:
+            cand -= 1
+        if nxt is not None and audio[pos + cand:pos + cand + len(nxt)] == nxt:
+            ln = cand
+        if 0 < ln < ps and pos + ln < len(audio):
+            partial.append((i, ln))   # audio cut short and zero padded although more audio follows
+            pos += ln
+            continue
+        other = i
+        break
+    if other is None and pos >= len(audio) and partial and not silent:
+        i, ln = partial[0]
+        return ("C16:buffered-source:short-read-midstream",
+                "all frames are sent in order but %d packets in the middle of the audio carry fewer than 352 frames and "
+                "are zero padded (first: datagram %d with %d audio bytes + %d zero bytes); %d data packets instead of %d"
+                % (len(partial), i, ln, ps - ln, sum(1 for _ in payloads) - 0, nd))
+    if other is None and silent:
+        return ("C16:payload:not-conserved",
+                "silence in the middle of the audio: datagram %d (of %d such) is all zeros although %d source bytes were "
+                "still to come%s" % (silent[0], len(silent), len(audio) - min(pos, len(audio)),
+                                     "; %d further packets are cut short and zero padded" % len(partial) if partial else ""))
+    return ("C16:payload:not-conserved",
+            "the %d data packets do not carry the source's frames exactly once and in order (zero padded)%s" % (
+                nd, "; first bad datagram %d" % other if other is not None else ""))
+
 
 def oracle(case, ob):
     """The property judged directly on the datagrams the real code handed to the transports.
@@ -414,9 +619,7 @@ def oracle(case, ob):
             if stream != full:
                 nd = -(-len(src) // ps)
                 if stream[:nd * ps] != full[:nd * ps]:
-                    errs.append(("C16:payload:not-conserved",
-                                 "the %d data packets do not carry the source's frames exactly once and in order "
-                                 "(zero padded)" % nd))
+                    errs.append(describe_damage(payloads, swap16(src) if len(src) % 2 == 0 else b"", ps, nd))
                 else:
                     errs.append(("C16:payload:silence",
                                  "after the audio %d silence packets were sent, expected %d (latency %d frames)" % (
@@ -824,6 +1027,33 @@ def gen_cases(ctx):
                                                 latency=rng.choice([352, 704]), seq0=seq0, delays=delays, proto=proto,
                                                 compact=True, requests=reqs, pa=rng.randrange(1, 250),
                                                 pb=rng.randrange(251), start_ts=rng.randrange(1 << 33))))
+    # L. BUFFERED sources whose producer stalls (real BufferedIOBaseSource.open on a WAV stream: seekable file object,
+    #    non-seekable pipe, asyncio.StreamReader; miniaudio decoding and reads in worker threads): stall right at a
+    #    packet boundary, in the middle of a packet, twice, not at all - long enough for the internal buffer to run
+    #    empty while the buffering task is still running.  Same oracle as for every other case.
+    bformats = [(1, 1), (1, 2), (2, 2), (1, 1), (2, 1), (1, 4), (1, 1), (2, 4)]
+    nL = 0
+    for kind in ("file", "pipe", "reader"):
+        plans = [("boundary", 1), ("middle", 1), ("twice", 2), ("none", 0)]
+        if ctx.thorough:
+            plans = plans * 4
+        for what, nst in plans:
+            ch, ss = bformats[nL % len(bformats)]
+            nL += 1
+            fs = ch * ss
+            ps = FPP * fs
+            npk = rng.randrange(90, 200)
+            nfr = npk * FPP + 2 * rng.randrange(0, 176)
+            stalls = []
+            at = 0
+            for j in range(nst):
+                at = rng.randrange(at + 20, at + 20 + (npk - 30) // max(nst, 1))
+                off = at * ps + (ps // 2 if what == "middle" or (what == "twice" and j) else 0)
+                stalls.append([off, rng.choice([1.0, 1.5, 3.0])])
+            cases.append(("stalling-source", default_case(
+                channels=ch, ssize=ss, nframes=nfr, latency=rng.choice([352, 704]), seq0=rnd_seq0(),
+                start_ts=rng.randrange(1 << 33), pa=rng.randrange(1, 250), pb=rng.randrange(251),
+                proto=rng.choice(["v1", "v2", "v2cipher"]), source={"kind": kind, "stalls": stalls})))
     # G. more than 1000 packets: the backlog evicts, requests for evicted and retained packets
     for extra in ([7] if not ctx.thorough else [0, 1, 7, 300, 1500]):
         nfr = (1000 + extra) * FPP - 5
@@ -935,6 +1165,8 @@ def run(ctx):
         ctx.count("fmt:%dx%d" % (case["channels"], case["ssize"]))
         ctx.count("proto:" + case.get("proto", "v1"))
         ctx.count("streams-on-context:%d" % len(history))
+        if case.get("source"):
+            ctx.count("source:%s:%d-stalls" % (case["source"]["kind"], len(case["source"]["stalls"])))
         for idx, (sub, ob) in enumerate(history):
             ctx.count("outcome:" + ob["outcome"])
             ctx.count("compensated" if any(b >= FPP for b in ob["behind"]) else "on-time")
@@ -950,6 +1182,8 @@ def run(ctx):
                     ctx.tie_broken("correspondence:canonical-form", json.dumps({"case": case, "stream": idx}))
                 long_terms.append(term)
                 long_meta.append({"case": case, "stream": idx})
+            elif sub.get("source") and errs:
+                pass        # judged failing by the oracle; the FileSource script is not a model of this run
             elif not sub.get("via_file"):
                 term, ok = describe(sub, ob)
                 if not ok and not errs:
@@ -1023,8 +1257,11 @@ def run(ctx):
     ]
     ctx.assumptions += [
         "little-endian host (sys.byteorder, re-checked each run)",
-        "sources obey the FileSource contract (whole frames; full packets, then the remainder, then nothing); "
-        "BufferedIOBaseSource/InternetSource buffering (threads, miniaudio decoding) is outside the model",
+        "the model's source is FileSource (whole frames; full packets, then the remainder, then nothing).  The source "
+        "abstraction for buffered sources is 'eventually delivers all frames': readframes returning nothing means end "
+        "of audio only when the producer has finished; BufferedIOBaseSource's buffering (threads, miniaudio decoding) "
+        "is not modelled - it is exercised with stalling producers against the same oracle, and runs that pass are also "
+        "compared with the FileSource model; InternetSource is outside",
         "3-byte samples cannot be streamed at all: miniaudio rejects SIGNED24 as a direct output format in every "
         "open_source path (re-checked each run), so (channels, sample size) ranges over {1,2} x {1,2,4}",
         "pacing (Statistics/monotonic/sleep) only decides how many packets go out per lap; the theorems hold for "
